@@ -93,12 +93,9 @@ DiameterCheck ==
     /\ UNCHANGED vars
     /\ last' = [act |-> "DiameterCheck", raises |-> \E i \in Idx : diam[i] = 0]
 
-\* key lists: every non-empty sub-list of the type list, in list order and reversed
-SubSeqs == LET sets == SUBSET Idx \ {{}}
-               Asc(S) == CHOOSE q \in [1 .. Cardinality(S) -> S] :
-                            \A a, b \in 1 .. Cardinality(S) : a < b => q[a] < q[b]
-               Rev(q) == [n \in 1 .. Len(q) |-> q[Len(q) + 1 - n]]
-           IN  {Asc(S) : S \in sets} \cup {Rev(Asc(S)) : S \in sets}
+\* key lists: every sequence of types of length 1 .. N - any order, and a type may be listed more than once
+\* (d[['A','B','A']] = x is a valid statement: the repeated type is simply assigned twice)
+SubSeqs == UNION {[1 .. n -> Idx] : n \in 1 .. N}
 
 DensNext == (\E K \in SubSeqs, v \in Vals : SetDensity(K, v)) \/ DensityCheck
 DiamNext == (\E K \in SubSeqs, v \in Vals : SetDiameter(K, v)) \/ DiameterCheck
